@@ -193,7 +193,7 @@ func TestC02(t *testing.T) {
 		r := newCdpRunner(u, rnd, rec, cfg, newC02Mon(u, rec))
 		r.run(cdpSteps())
 		// emergency shutdown of one app at the end of every second run
-		if variant%2 == 0 {
+		if variant%4 < 2 {
 			r.esmPhase(u.cdpApps[(variant/2)%len(u.cdpApps)])
 		}
 		if run == 0 {
